@@ -14,6 +14,7 @@ import (
 	pbredis "github.com/samaritan-proxy/samaritan/pb/config/protocol/redis"
 	"github.com/samaritan-proxy/samaritan/pb/config/service"
 	"github.com/samaritan-proxy/samaritan/proc"
+	"github.com/samaritan-proxy/samaritan/stats"
 	_ "github.com/samaritan-proxy/samaritan/proc/redis"
 	_ "github.com/samaritan-proxy/samaritan/proc/tcp"
 
@@ -28,6 +29,17 @@ func init() {
 }
 
 var svcCounter atomic.Int64
+
+// DropStats deletes the statistics scopes of a service (the store is process-wide and the proxy never
+// deletes them; a worker runs thousands of services).
+func DropStats(name string) {
+	prefix := "service." + name + "."
+	for _, sc := range stats.Scopes() {
+		if len(sc.Name()) >= len(prefix) && sc.Name()[:len(prefix)] == prefix {
+			stats.DeleteScope(sc)
+		}
+	}
+}
 
 // UniqueName returns a process-unique service name (the statistics store is process-wide).
 func UniqueName(prefix string) string {
